@@ -916,4 +916,477 @@ theorem getBindParameters_encodeExecute (fo : FloatOps) (head : Bytes) (types : 
   rw [if_neg (by rw [hlen, hdrLen_eq, hl]; omega), htypes, Out.bind_ok, hvals]
   rfl
 
+/-! ### write side: the values after an observer, and their re-encoding -/
+
+/-- the observer changes parameter `i` (its text value differs after `f`) -/
+def changedAt (fo : FloatOps) (f : Nat → Bytes → Bytes) (i t : Nat) (v : Option Bytes) : Bool :=
+  match (boundOf fo t v).data with
+  | some text => decide (text ≠ f i text)
+  | none => false
+
+/-- the bound values after the observer: a changed value becomes a BLOB holding the new text -/
+def outBound (fo : FloatOps) (f : Nat → Bytes → Bytes) : Nat → List (Nat × Nat) → List (Option Bytes) → List BoundValue
+  | i, tf :: ts, v :: vs =>
+    (match (boundOf fo tf.1 v).data with
+     | some text => if text = f i text then boundOf fo tf.1 v else ⟨changedType, some (f i text)⟩
+     | none => boundOf fo tf.1 v) :: outBound fo f (i + 1) ts vs
+  | _, _, _ => []
+
+/-- specification side: the (type, flag) pairs and the wire values of the rewritten execute -/
+def outTypes (fo : FloatOps) (f : Nat → Bytes → Bytes) : Nat → List (Nat × Nat) → List (Option Bytes) → List (Nat × Nat)
+  | i, tf :: ts, v :: vs => (if changedAt fo f i tf.1 v then (changedType, tf.2) else tf) :: outTypes fo f (i + 1) ts vs
+  | _, _, _ => []
+
+def outVals (fo : FloatOps) (f : Nat → Bytes → Bytes) : Nat → List (Nat × Nat) → List (Option Bytes) → List (Option Bytes)
+  | i, tf :: ts, v :: vs =>
+    (if changedAt fo f i tf.1 v then (boundOf fo tf.1 v).data.map (f i) else v) :: outVals fo f (i + 1) ts vs
+  | _, _, _ => []
+
+theorem transformVals_boundAll (fo : FloatOps) (f : Nat → Bytes → Bytes) (g : Nat → Bytes → Out Bytes)
+    (hg : ∀ i d, g i d = .ok (f i d)) (types : List (Nat × Nat)) (vals : List (Option Bytes)) (i : Nat) :
+    transformVals g (boundAll fo types vals) i = .ok (outBound fo f i types vals) := by
+  induction vals generalizing types i with
+  | nil => cases types <;> rfl
+  | cons v vs ih =>
+    match types with
+    | [] => rfl
+    | tf :: ts =>
+      simp only [boundAll, outBound]
+      unfold transformVals
+      rw [ih ts (i + 1)]
+      cases hd : (boundOf fo tf.1 v).data with
+      | none => simp
+      | some text =>
+        simp only [hd, hg, Out.bind_ok, Out.pure_eq, BoundValue.setData, Option.getD_some]
+
+/-- every FLOAT/DOUBLE value of the execute satisfies strconv's shortest-text round trip (all finite values and the
+infinities do; NaN payloads are canonicalised) -/
+def FloatLaw (fo : FloatOps) (types : List (Nat × Nat)) (vals : List (Option Bytes)) : Prop :=
+  ∀ (j t fl w : Nat) (v : Bytes), types[j]? = some (t, fl) → vals[j]? = some (some v) →
+    decodeKind t = some (.float w) → fo.parse w (fo.fmt w v) = some v
+
+theorem encode_changed (fo : FloatOps) (d : Bytes) :
+    (⟨changedType, some d⟩ : BoundValue).encode fo = .ok (putLengthEncodedString (some d)) := by
+  simp [BoundValue.encode, storageBytes_changedType]
+
+theorem encodeParamVal_changed (d : Bytes) : encodeParamVal changedType d = putLengthEncodedString (some d) := by
+  simp [encodeParamVal, storageBytes_changedType]
+
+/-- **the value loop of `SetParameters` writes the specification encoding of the values after the observer** -/
+theorem encodeVals_outBound (fo : FloatOps) (f : Nat → Bytes → Bytes) (types : List (Nat × Nat))
+    (vals : List (Option Bytes)) (i : Nat) (hl : types.length = vals.length)
+    (hw : ∀ (j t fl : Nat) (v : Bytes), types[j]? = some (t, fl) → vals[j]? = some (some v) → WireOk t v)
+    (hlaw : FloatLaw fo types vals) :
+    encodeVals fo (outBound fo f i types vals) =
+      .ok (encodeParamVals (outTypes fo f i types vals) (outVals fo f i types vals)) := by
+  induction vals generalizing types i with
+  | nil => cases types <;> rfl
+  | cons v vs ih =>
+    match types, hl with
+    | (t, fl) :: ts, hl =>
+      have hl' : ts.length = vs.length := by simpa using hl
+      have hw' : ∀ (j t' fl' : Nat) (x : Bytes), ts[j]? = some (t', fl') → vs[j]? = some (some x) → WireOk t' x :=
+        fun j t' fl' x h1 h2 => hw (j + 1) t' fl' x (by simpa using h1) (by simpa using h2)
+      have hlaw' : FloatLaw fo ts vs :=
+        fun j t' fl' w x h1 h2 h3 => hlaw (j + 1) t' fl' w x (by simpa using h1) (by simpa using h2) h3
+      have hrec := ih ts (i + 1) hl' hw' hlaw'
+      simp only [outBound, outTypes, outVals]
+      cases v with
+      | none =>
+        have hb : boundOf fo t none = ⟨t, none⟩ := rfl
+        simp only [hb, changedAt, Bool.false_eq_true, if_false]
+        unfold encodeVals
+        simp only [hrec]
+        rfl
+      | some w =>
+        have hwx : WireOk t w := hw 0 t fl w rfl rfl
+        unfold WireOk at hwx
+        cases hs : storageBytes t with
+        | none =>
+          have hb : boundOf fo t (some w) = ⟨t, some w⟩ := by simp [boundOf, hs]
+          simp only [hb, changedAt]
+          by_cases hc : w = f i w
+          · have hdc : decide (w ≠ f i w) = false := by simp; exact hc
+            rw [if_pos hc, hdc]
+            simp only [Bool.false_eq_true, if_false]
+            unfold encodeVals
+            simp only [hrec, BoundValue.encode, hs, Out.bind_ok, Out.pure_eq]
+            simp [encodeParamVals, encodeParamVal, hs]
+          · have hdc : decide (w ≠ f i w) = true := by simp [hc]
+            rw [if_neg hc, hdc]
+            simp only [if_true, Option.map_some]
+            unfold encodeVals
+            simp only [hrec, encode_changed, Out.bind_ok, Out.pure_eq]
+            simp [encodeParamVals, encodeParamVal_changed]
+        | some sb =>
+          rw [hs] at hwx
+          rcases tables_agree t sb hs with ⟨hd, he⟩ | ⟨hd, he⟩ | ⟨hd, he, h0⟩
+          · -- integer
+            have hsb : 0 < sb := by
+              have hm := storageBytes_mem t sb hs
+              simp only [Generated.Wire.myNumericStorageBytes, List.mem_cons, Prod.mk.injEq, List.not_mem_nil, or_false] at hm
+              rcases hm with ⟨rfl, rfl⟩ | ⟨rfl, rfl⟩ | ⟨rfl, rfl⟩ | ⟨rfl, rfl⟩ | ⟨rfl, rfl⟩ | ⟨rfl, rfl⟩ | ⟨rfl, rfl⟩ | ⟨rfl, rfl⟩ | ⟨rfl, rfl⟩ <;>
+                first | decide | (exfalso; revert hd; decide)
+            have hb : boundOf fo t (some w) = ⟨t, some (fmtInt (toSigned (8 * sb) (leVal w)))⟩ := by
+              simp [boundOf, hs, hd]
+            have henc := (value_roundtrip_int fo t sb w [] hs hd he hsb hwx).2
+            simp only [hb, changedAt]
+            by_cases hc : fmtInt (toSigned (8 * sb) (leVal w)) = f i (fmtInt (toSigned (8 * sb) (leVal w)))
+            · have hdc : decide (fmtInt (toSigned (8 * sb) (leVal w)) ≠ f i (fmtInt (toSigned (8 * sb) (leVal w)))) = false := by
+                simp; exact hc
+              rw [if_pos hc, hdc]
+              simp only [Bool.false_eq_true, if_false]
+              unfold encodeVals
+              simp only [hrec, henc, Out.bind_ok, Out.pure_eq]
+              simp [encodeParamVals, encodeParamVal, hs]
+            · have hdc : decide (fmtInt (toSigned (8 * sb) (leVal w)) ≠ f i (fmtInt (toSigned (8 * sb) (leVal w)))) = true := by
+                simp [hc]
+              rw [if_neg hc, hdc]
+              simp only [if_true, Option.map_some]
+              unfold encodeVals
+              simp only [hrec, encode_changed, Out.bind_ok, Out.pure_eq]
+              simp [encodeParamVals, encodeParamVal_changed]
+          · -- float
+            have hb : boundOf fo t (some w) = ⟨t, some (fo.fmt sb w)⟩ := by simp [boundOf, hs, hd]
+            have henc := (value_roundtrip_float fo t sb w [] hs hd he hwx (hlaw 0 t fl sb w rfl rfl hd)).2
+            simp only [hb, changedAt]
+            by_cases hc : fo.fmt sb w = f i (fo.fmt sb w)
+            · have hdc : decide (fo.fmt sb w ≠ f i (fo.fmt sb w)) = false := by simp; exact hc
+              rw [if_pos hc, hdc]
+              simp only [Bool.false_eq_true, if_false]
+              unfold encodeVals
+              simp only [hrec, henc, Out.bind_ok, Out.pure_eq]
+              simp [encodeParamVals, encodeParamVal, hs]
+            · have hdc : decide (fo.fmt sb w ≠ f i (fo.fmt sb w)) = true := by simp [hc]
+              rw [if_neg hc, hdc]
+              simp only [if_true, Option.map_some]
+              unfold encodeVals
+              simp only [hrec, encode_changed, Out.bind_ok, Out.pure_eq]
+              simp [encodeParamVals, encodeParamVal_changed]
+          · -- NULL type with a (zero-length) value slot
+            subst h0
+            have hw0 : w = [] := List.eq_nil_of_length_eq_zero hwx
+            subst hw0
+            have hb : boundOf fo t (some []) = ⟨t, none⟩ := by simp [boundOf, hs, hd]
+            simp only [hb, changedAt, Bool.false_eq_true, if_false]
+            unfold encodeVals
+            simp only [hrec]
+            simp [encodeParamVals, encodeParamVal, hs]
+
+/-! ### the type loop of `SetParameters` -/
+
+theorem boundOf_paramType (fo : FloatOps) (t : Nat) (v : Option Bytes) : (boundOf fo t v).paramType = t := by
+  unfold boundOf
+  cases v with
+  | none => rfl
+  | some w =>
+    simp only
+    cases storageBytes t with
+    | none => rfl
+    | some sb =>
+      simp only
+      cases decodeKind t with
+      | none => rfl
+      | some k => cases k <;> rfl
+
+/-- no LONG / LONGLONG parameter carries an unsigned flag that disagrees with the sign of its value read as a signed
+integer – the complement of the input class of the known finding `my-execute-sign-flag` -/
+def SignFlagsCanonical (types : List (Nat × Nat)) (vals : List (Option Bytes)) : Prop :=
+  ∀ (j t fl sb : Nat) (v : Bytes), types[j]? = some (t, fl) → vals[j]? = some (some v) →
+    Generated.Wire.mySignFlagTypes.contains t = true → storageBytes t = some sb →
+    fl = (if toSigned (8 * sb) (leVal v) < 0 then Generated.Wire.mySignedBinaryValue else Generated.Wire.myUnsignedBinaryValue)
+
+theorem signType_cases (t : Nat) (h : Generated.Wire.mySignFlagTypes.contains t = true) :
+    (t = 3 ∧ storageBytes t = some 4 ∧ decodeKind t = some (.int 4)) ∨
+    (t = 8 ∧ storageBytes t = some 8 ∧ decodeKind t = some (.int 8)) := by
+  simp only [Generated.Wire.mySignFlagTypes, List.contains_cons, List.contains_nil, Bool.or_false, Bool.or_eq_true, beq_iff_eq] at h
+  rcases h with rfl | rfl
+  · left; exact ⟨rfl, by decide, by decide⟩
+  · right; exact ⟨rfl, by decide, by decide⟩
+
+theorem changedType_not_sign : Generated.Wire.mySignFlagTypes.contains changedType = false := by decide
+
+theorem parseInt64_fmtInt_toSigned (sb : Nat) (hsb : sb = 4 ∨ sb = 8) (v : Bytes) (hv : v.length = sb) :
+    parseInt 64 (fmtInt (toSigned (8 * sb) (leVal v))) = some (toSigned (8 * sb) (leVal v)) := by
+  have hlt : leVal v < 2 ^ (8 * sb) := by
+    have := leVal_lt v
+    rw [hv, show (256 : Nat) = 2 ^ 8 by rfl, ← Nat.pow_mul] at this
+    exact this
+  have hr := toSigned_range sb (by omega) (leVal v) hlt
+  apply parseInt_fmtInt 64
+  · rcases hsb with rfl | rfl
+    · have : ((2 ^ (8 * 4 - 1) : Nat) : Int) ≤ ((2 ^ (64 - 1) : Nat) : Int) := by decide
+      omega
+    · exact hr.1
+  · rcases hsb with rfl | rfl
+    · have : ((2 ^ (8 * 4 - 1) : Nat) : Int) ≤ ((2 ^ (64 - 1) : Nat) : Int) := by decide
+      omega
+    · exact hr.2
+
+/-- **the type loop of `SetParameters` writes the (type, flag) pairs of the specification**: the type byte of a changed
+parameter becomes BLOB, every other pair is written back as it was read (the recomputed unsigned flag of a LONG /
+LONGLONG parameter equals the received one under `SignFlagsCanonical`) -/
+theorem setTypes_outBound (fo : FloatOps) (f : Nat → Bytes → Bytes) (post : Bytes) (types : List (Nat × Nat))
+    (vals : List (Option Bytes)) (pre : Bytes) (i : Nat) (hl : types.length = vals.length)
+    (hty : ∀ tf ∈ types, tf.1 < 256 ∧ tf.2 < 256)
+    (hw : ∀ (j t fl : Nat) (v : Bytes), types[j]? = some (t, fl) → vals[j]? = some (some v) → WireOk t v)
+    (hsf : SignFlagsCanonical types vals) :
+    setTypes (pre ++ typeBytes types ++ post) (outBound fo f i types vals) pre.length =
+      .ok (typeBytes (outTypes fo f i types vals)) := by
+  induction vals generalizing types pre i with
+  | nil => cases types <;> rfl
+  | cons v vs ih =>
+    match types, hl with
+    | (t, fl) :: ts, hl =>
+      have hl' : ts.length = vs.length := by simpa using hl
+      have hty' : ∀ tf ∈ ts, tf.1 < 256 ∧ tf.2 < 256 := fun tf h => hty tf (List.mem_cons_of_mem _ h)
+      have hw' : ∀ (j t' fl' : Nat) (x : Bytes), ts[j]? = some (t', fl') → vs[j]? = some (some x) → WireOk t' x :=
+        fun j t' fl' x h1 h2 => hw (j + 1) t' fl' x (by simpa using h1) (by simpa using h2)
+      have hsf' : SignFlagsCanonical ts vs :=
+        fun j t' fl' sb x h1 h2 h3 h4 => hsf (j + 1) t' fl' sb x (by simpa using h1) (by simpa using h2) h3 h4
+      have e : pre ++ typeBytes ((t, fl) :: ts) ++ post = (pre ++ [UInt8.ofNat t, UInt8.ofNat fl]) ++ typeBytes ts ++ post := by
+        simp [typeBytes, List.flatMap_cons, List.append_assoc]
+      have e' : pre ++ typeBytes ((t, fl) :: ts) ++ post = pre ++ [UInt8.ofNat t, UInt8.ofNat fl] ++ (typeBytes ts ++ post) := by
+        simp [typeBytes, List.flatMap_cons, List.append_assoc]
+      have hpt : goSlice (pre ++ typeBytes ((t, fl) :: ts) ++ post) pre.length (pre.length + 2) =
+          .ok [UInt8.ofNat t, UInt8.ofNat fl] := by
+        rw [e']
+        exact goSlice_append_mid pre [UInt8.ofNat t, UInt8.ofNat fl] _
+      have hrec := ih ts (pre ++ [UInt8.ofNat t, UInt8.ofNat fl]) (i + 1) hl' hty' hw' hsf'
+      rw [← e] at hrec
+      have hlen : (pre ++ [UInt8.ofNat t, UInt8.ofNat fl]).length = pre.length + 2 := by simp
+      rw [hlen] at hrec
+      simp only [outBound, outTypes]
+      -- the element and whether it is changed
+      have key : ∀ (e : BoundValue) (ot : Nat × Nat),
+          (ot.1 = e.paramType) → (ot.2 = fl) →
+          (Generated.Wire.mySignFlagTypes.contains e.paramType = true → ∀ d, e.data = some d →
+            ∃ x : Int, parseInt 64 d = some x ∧
+              UInt8.ofNat fl = (if x < 0 then UInt8.ofNat Generated.Wire.mySignedBinaryValue else UInt8.ofNat Generated.Wire.myUnsignedBinaryValue)) →
+          setTypes (pre ++ typeBytes ((t, fl) :: ts) ++ post) (e :: outBound fo f (i + 1) ts vs) pre.length =
+            .ok (typeBytes (ot :: outTypes fo f (i + 1) ts vs)) := by
+        intro e ot h1 h2 h3
+        unfold setTypes
+        rw [hpt, Out.bind_ok]
+        simp only [List.drop_succ_cons, List.drop_zero, List.headD_cons]
+        by_cases hc : Generated.Wire.mySignFlagTypes.contains e.paramType = true
+        · rw [if_pos hc]
+          cases hd : e.data with
+          | none =>
+            simp only [Out.pure_eq, Out.bind_ok, hrec]
+            obtain ⟨o1, o2⟩ := ot
+            simp only at h1 h2
+            subst h1; subst h2
+            simp [typeBytes, List.flatMap_cons]
+          | some d =>
+            obtain ⟨x, hx, hfx⟩ := h3 hc d hd
+            simp only [hx, Out.pure_eq, Out.bind_ok, hrec]
+            obtain ⟨o1, o2⟩ := ot
+            simp only at h1 h2
+            subst h1; subst h2
+            rw [← hfx]
+            simp [typeBytes, List.flatMap_cons]
+        · rw [if_neg hc]
+          simp only [Out.pure_eq, Out.bind_ok, hrec]
+          obtain ⟨o1, o2⟩ := ot
+          simp only at h1 h2
+          subst h1; subst h2
+          simp [typeBytes, List.flatMap_cons]
+      cases hd : (boundOf fo t v).data with
+      | none =>
+        have hca : changedAt fo f i t v = false := by simp [changedAt, hd]
+        simp only [hca, Bool.false_eq_true, if_false]
+        exact key (boundOf fo t v) (t, fl) (boundOf_paramType fo t v).symm rfl (fun _ d h => by rw [hd] at h; cases h)
+      | some text =>
+        by_cases hc : text = f i text
+        · have hca : changedAt fo f i t v = false := by
+            simp only [changedAt, hd]
+            simp; exact hc
+          simp only [hca, Bool.false_eq_true, if_false]
+          rw [if_pos hc]
+          refine key (boundOf fo t v) (t, fl) (boundOf_paramType fo t v).symm rfl ?_
+          intro hsign d hdd
+          rw [boundOf_paramType] at hsign
+          rw [hd] at hdd
+          cases hdd
+          cases v with
+          | none => simp [boundOf] at hd
+          | some w =>
+            have hwx : WireOk t w := hw 0 t fl w rfl rfl
+            rcases signType_cases t hsign with ⟨_, hs, hk⟩ | ⟨_, hs, hk⟩
+            · have htext : text = fmtInt (toSigned (8 * 4) (leVal w)) := by
+                have : (boundOf fo t (some w)).data = some (fmtInt (toSigned (8 * 4) (leVal w))) := by simp [boundOf, hs, hk]
+                rw [hd] at this
+                exact Option.some.inj this
+              unfold WireOk at hwx
+              rw [hs] at hwx
+              refine ⟨toSigned (8 * 4) (leVal w), by rw [htext]; exact parseInt64_fmtInt_toSigned 4 (Or.inl rfl) w hwx, ?_⟩
+              rw [hsf 0 t fl 4 w rfl rfl hsign hs]
+              split <;> rfl
+            · have htext : text = fmtInt (toSigned (8 * 8) (leVal w)) := by
+                have : (boundOf fo t (some w)).data = some (fmtInt (toSigned (8 * 8) (leVal w))) := by simp [boundOf, hs, hk]
+                rw [hd] at this
+                exact Option.some.inj this
+              unfold WireOk at hwx
+              rw [hs] at hwx
+              refine ⟨toSigned (8 * 8) (leVal w), by rw [htext]; exact parseInt64_fmtInt_toSigned 8 (Or.inr rfl) w hwx, ?_⟩
+              rw [hsf 0 t fl 8 w rfl rfl hsign hs]
+              split <;> rfl
+        · have hca : changedAt fo f i t v = true := by
+            simp only [changedAt, hd]
+            simp [hc]
+          simp only [hca, if_true]
+          rw [if_neg hc]
+          exact key ⟨changedType, some (f i text)⟩ (changedType, fl) rfl rfl
+            (fun hsign => by rw [changedType_not_sign] at hsign; cases hsign)
+
+/-! ### the whole packet -/
+
+theorem execBitmap_congr (a b : List (Option Bytes)) (hl : a.length = b.length)
+    (h : ∀ j : Nat, (a[j]? = some none) ↔ (b[j]? = some none)) : execBitmap a = execBitmap b := by
+  apply List.ext_getElem?
+  intro k
+  by_cases hk : k < (a.length + 7) / 8
+  · rw [execBitmap_get a k hk, execBitmap_get b k (by rw [← hl]; exact hk)]
+    have : (fun bit => decide (a[k * 8 + bit]? = some none)) = (fun bit => decide (b[k * 8 + bit]? = some none)) := by
+      funext bit
+      exact decide_eq_decide.mpr (h _)
+    rw [this]
+  · rw [List.getElem?_eq_none (by rw [execBitmap_length]; omega),
+      List.getElem?_eq_none (by rw [execBitmap_length, ← hl]; omega)]
+
+theorem outVals_length (fo : FloatOps) (f : Nat → Bytes → Bytes) (i : Nat) (types : List (Nat × Nat))
+    (vals : List (Option Bytes)) (hl : types.length = vals.length) : (outVals fo f i types vals).length = vals.length := by
+  induction vals generalizing types i with
+  | nil => cases types <;> rfl
+  | cons v vs ih =>
+    match types, hl with
+    | tf :: ts, hl => simp [outVals, ih (i + 1) ts (by simpa using hl)]
+
+theorem outTypes_length (fo : FloatOps) (f : Nat → Bytes → Bytes) (i : Nat) (types : List (Nat × Nat))
+    (vals : List (Option Bytes)) (hl : types.length = vals.length) : (outTypes fo f i types vals).length = vals.length := by
+  induction vals generalizing types i with
+  | nil => cases types <;> rfl
+  | cons v vs ih =>
+    match types, hl with
+    | tf :: ts, hl => simp [outTypes, ih (i + 1) ts (by simpa using hl)]
+
+theorem outBound_length (fo : FloatOps) (f : Nat → Bytes → Bytes) (i : Nat) (types : List (Nat × Nat))
+    (vals : List (Option Bytes)) (hl : types.length = vals.length) : (outBound fo f i types vals).length = vals.length := by
+  induction vals generalizing types i with
+  | nil => cases types <;> rfl
+  | cons v vs ih =>
+    match types, hl with
+    | tf :: ts, hl => simp [outBound, ih (i + 1) ts (by simpa using hl)]
+
+/-- NULL parameters stay NULL and no other parameter becomes NULL -/
+theorem outVals_none_iff (fo : FloatOps) (f : Nat → Bytes → Bytes) (i : Nat) (types : List (Nat × Nat))
+    (vals : List (Option Bytes)) (hl : types.length = vals.length) (j : Nat) :
+    (outVals fo f i types vals)[j]? = some none ↔ vals[j]? = some none := by
+  induction vals generalizing types i j with
+  | nil => cases types <;> simp [outVals]
+  | cons v vs ih =>
+    match types, hl with
+    | tf :: ts, hl =>
+      cases j with
+      | succ j => simpa [outVals] using ih (i + 1) ts (by simpa using hl) j
+      | zero =>
+        simp only [outVals, List.getElem?_cons_zero, Option.some.injEq]
+        cases v with
+        | none => simp [changedAt, boundOf]
+        | some w =>
+          by_cases hc : changedAt fo f i tf.1 (some w) = true
+          · rw [if_pos hc]
+            unfold changedAt at hc
+            cases hd : (boundOf fo tf.1 (some w)).data with
+            | none => rw [hd] at hc; cases hc
+            | some text => simp
+          · rw [if_neg hc]
+
+/-- **`GetBindParameters → OnBind → SetParameters` on the specification encoding.** -/
+theorem rewriteExecute_encodeExecute (fo : FloatOps) (f : Nat → Bytes → Bytes) (g : Nat → Bytes → Out Bytes)
+    (hg : ∀ i d, g i d = .ok (f i d)) (h head : Bytes) (types : List (Nat × Nat)) (vals : List (Option Bytes))
+    (hh : head.length = 10) (hl : types.length = vals.length) (hn : 0 < vals.length)
+    (hty : ∀ tf ∈ types, tf.1 < 256 ∧ tf.2 < 256)
+    (hw : ∀ (j t fl : Nat) (v : Bytes), types[j]? = some (t, fl) → vals[j]? = some (some v) → WireOk t v)
+    (hlaw : FloatLaw fo types vals) (hsf : SignFlagsCanonical types vals) :
+    rewriteExecute fo g ⟨h, encodeExecute head types vals⟩ vals.length =
+      .ok (some (setData ⟨h, encodeExecute head types vals⟩
+        (encodeExecute head (outTypes fo f 0 types vals) (outVals fo f 0 types vals)))) := by
+  have hbl := execBitmap_length vals
+  have hob := outBound_length fo f 0 types vals hl
+  have hbm : execBitmap (outVals fo f 0 types vals) = execBitmap vals :=
+    execBitmap_congr _ _ (outVals_length fo f 0 types vals hl) (outVals_none_iff fo f 0 types vals hl)
+  have e0 : encodeExecute head types vals =
+      head ++ execBitmap vals ++ [1] ++ typeBytes types ++ encodeParamVals types vals := rfl
+  have epre : (head ++ execBitmap vals ++ [1]).length = hdrLen + ((vals.length + 7) >>> 3) + 1 := by
+    simp only [List.length_append, hh, hbl, hdrLen_eq, List.length_cons, List.length_nil, Nat.shiftRight_eq_div_pow]
+  have hhead : goSlice (encodeExecute head types vals) 0 (hdrLen + ((vals.length + 7) >>> 3) + 1) =
+      .ok (head ++ execBitmap vals ++ [1]) := by
+    rw [e0, ← epre]
+    have := goSlice_prefix (head ++ execBitmap vals ++ [1]) (typeBytes types ++ encodeParamVals types vals)
+    simpa [List.append_assoc] using this
+  have htypes : setTypes (encodeExecute head types vals) (outBound fo f 0 types vals)
+      (hdrLen + ((vals.length + 7) >>> 3) + 1) = .ok (typeBytes (outTypes fo f 0 types vals)) := by
+    have := setTypes_outBound fo f (encodeParamVals types vals) types vals (head ++ execBitmap vals ++ [1]) 0 hl hty hw hsf
+    rw [epre] at this
+    rw [e0]
+    exact this
+  unfold rewriteExecute
+  rw [getBindParameters_encodeExecute fo head types vals hh hl hn (fun tf htf => (hty tf htf).1) hw, Out.bind_ok]
+  simp only
+  rw [transformVals_boundAll fo f g hg types vals 0, Out.bind_ok]
+  unfold setParameters
+  rw [hob, if_neg (by omega)]
+  simp only
+  rw [hhead, Out.bind_ok, htypes, Out.bind_ok, encodeVals_outBound fo f types vals 0 hl hw hlaw, Out.bind_ok]
+  simp only [Out.pure_eq, Out.bind_ok]
+  have : head ++ execBitmap vals ++ [1] ++ typeBytes (outTypes fo f 0 types vals) ++
+      encodeParamVals (outTypes fo f 0 types vals) (outVals fo f 0 types vals) =
+      encodeExecute head (outTypes fo f 0 types vals) (outVals fo f 0 types vals) := by
+    show _ = head ++ execBitmap (outVals fo f 0 types vals) ++ [1] ++ typeBytes (outTypes fo f 0 types vals) ++ _
+    rw [hbm]
+  rw [this]
+
+theorem outTypes_getElem? (fo : FloatOps) (f : Nat → Bytes → Bytes) (i : Nat) (types : List (Nat × Nat))
+    (vals : List (Option Bytes)) (j t fl : Nat) (v : Option Bytes) (h1 : types[j]? = some (t, fl)) (h2 : vals[j]? = some v) :
+    (outTypes fo f i types vals)[j]? = some (if changedAt fo f (i + j) t v then (changedType, fl) else (t, fl)) := by
+  induction vals generalizing types i j with
+  | nil => simp at h2
+  | cons x xs ih =>
+    match types with
+    | [] => simp at h1
+    | tf :: ts =>
+      cases j with
+      | zero =>
+        simp only [List.getElem?_cons_zero, Option.some.injEq] at h1 h2
+        subst h1; subst h2
+        rfl
+      | succ j =>
+        simp only [outTypes, List.getElem?_cons_succ]
+        rw [ih (i + 1) ts j (by simpa using h1) (by simpa using h2)]
+        have : i + 1 + j = i + (j + 1) := by omega
+        rw [this]
+
+theorem outVals_getElem? (fo : FloatOps) (f : Nat → Bytes → Bytes) (i : Nat) (types : List (Nat × Nat))
+    (vals : List (Option Bytes)) (j t fl : Nat) (v : Option Bytes) (h1 : types[j]? = some (t, fl)) (h2 : vals[j]? = some v) :
+    (outVals fo f i types vals)[j]? =
+      some (if changedAt fo f (i + j) t v then (boundOf fo t v).data.map (f (i + j)) else v) := by
+  induction vals generalizing types i j with
+  | nil => simp at h2
+  | cons x xs ih =>
+    match types with
+    | [] => simp at h1
+    | tf :: ts =>
+      cases j with
+      | zero =>
+        simp only [List.getElem?_cons_zero, Option.some.injEq] at h1 h2
+        subst h1; subst h2
+        rfl
+      | succ j =>
+        simp only [outVals, List.getElem?_cons_succ]
+        rw [ih (i + 1) ts j (by simpa using h1) (by simpa using h2)]
+        have : i + 1 + j = i + (j + 1) := by omega
+        rw [this]
+
 end AcraModel.Wire.My
